@@ -640,6 +640,25 @@ class Interp:
         if k == 'CXXThisExpr':
             val[i] = Ptr(this)
             return
+        if k == 'InitListExpr':
+            # aggregate initialisation of a plain struct: one initialiser per field, in declaration order; a reference field is bound
+            tq = (e.get('t') or '').replace('const ', '').replace('struct ', '').strip()
+            rc = self.fx.raw['records'].get(tq)
+            if rc is None or len(rc['fields']) != len(c):
+                self.broken(fn, e, 'aggregate initialisation of %s' % tq)
+            r_ = Rec()
+            for f_, ci in zip(rc['fields'], c):
+                v_ = V(ci)
+                if (f_.get('t') or '').rstrip().endswith('&'):
+                    if isinstance(v_, LV) and isinstance(v_.load(), Rec):
+                        v_ = v_.load()
+                    elif not isinstance(v_, (LV, Rec)):
+                        self.broken(fn, e, 'reference field %s bound to a %s' % (f_['n'], type(v_).__name__))
+                else:
+                    v_ = self.rv(v_)
+                r_[rc['q'] + '::' + f_['n']] = v_
+            val[i] = r_
+            return
         if k in ('ParenExpr', 'ExprWithCleanups', 'MaterializeTemporaryExpr', 'CXXBindTemporaryExpr', 'CXXFunctionalCastExpr', 'ConstantExpr', 'SubstNonTypeTemplateParmExpr') and c:
             val[i] = V(c[0])
             return
